@@ -126,6 +126,13 @@ def run_case(case) -> dict:
     with database.create_scope():
         repo = WebPushRepository(database.scoped_session())
         for u in case["users"]:
+            if u["prefs"] and case.get("resaved"):
+                # an earlier save of the same user with everything different (the later save must replace all of it)
+                other_roles = {"A", "B"} - set(u["roles"])
+                repo.store_notifications_preferences(Mdl.WebPushNotificationPreferences(
+                    user_id=u["id"], user_roles=other_roles, scope=NotificationScope([s_ for s_ in SCOPES if s_ != u["scope"]][0]),
+                    topics={NotificationTopic(t) for t in (PLAIN, NC, OTHER_TOPIC)} - {NotificationTopic(t) for t in u["topics"]},
+                    process_units={"other-unit"}))
             if u["prefs"]:
                 repo.store_notifications_preferences(Mdl.WebPushNotificationPreferences(
                     user_id=u["id"], user_roles=set(u["roles"]), scope=NotificationScope(u["scope"]),
@@ -329,6 +336,15 @@ def build_cases(quick: bool):
             via.append(c2)
     cases += via
     cases += list(two_user_cases(bound))
+    # every one-user configuration again as the SECOND save of that user (the first save differed in roles, scope, topics, units)
+    resaved = []
+    for c in cases[:n1]:
+        if c["class"] == "one-user":
+            c2 = dict(c)
+            c2["resaved"] = True
+            c2["class"] = "one-user-second-save"
+            resaved.append(c2)
+    cases += resaved
     return cases, dict(two_user_deviation_bound=bound)
 
 
